@@ -37,6 +37,7 @@ func corruptCmd(args []string) error {
 		in  corpus.Input
 		at  int
 		val byte
+		cut bool // the file ends at offset `at` instead
 	}
 	jobs := make(chan job, 1024)
 	var wg sync.WaitGroup
@@ -46,7 +47,13 @@ func corruptCmd(args []string) error {
 			defer wg.Done()
 			for j := range jobs {
 				data := append([]byte{}, j.in.Data...)
-				data[j.at] = j.val
+				how := fmt.Sprintf("byte %d replaced by 0x%02x", j.at, j.val)
+				if j.cut {
+					data = data[:j.at]
+					how = fmt.Sprintf("cut off after %d bytes", j.at)
+				} else {
+					data[j.at] = j.val
+				}
 				res := corpus.Run(j.in.Entry, bytes.NewReader(data))
 				mu.Lock()
 				sum.Vectors++
@@ -62,7 +69,7 @@ func corruptCmd(args []string) error {
 					sum.BySig[sig]++
 					if sum.BySig[sig] <= 3 {
 						sum.Disagreements = append(sum.Disagreements, disagreement{Sig: sig, What: "the reader panicked: " + res.Panic,
-							Stimulus: fmt.Sprintf("input %s, byte %d replaced by 0x%02x", j.in.Name, j.at, j.val), Expected: "a result or an error", Observed: res.Panic})
+							Stimulus: fmt.Sprintf("input %s, %s", j.in.Name, how), Expected: "a result or an error", Observed: res.Panic})
 					}
 				}
 				mu.Unlock()
@@ -77,11 +84,15 @@ func corruptCmd(args []string) error {
 			step = 3
 		}
 		for at := 0; at < len(in.Data); at += step {
-			jobs <- job{in, at, vals[rng.Intn(len(vals))]}
+			jobs <- job{in: in, at: at, val: vals[rng.Intn(len(vals))]}
 			if tier == "thorough" {
-				jobs <- job{in, at, vals[rng.Intn(len(vals))]}
-				jobs <- job{in, at, byte(rng.Intn(256))}
+				jobs <- job{in: in, at: at, val: vals[rng.Intn(len(vals))]}
+				jobs <- job{in: in, at: at, val: byte(rng.Intn(256))}
 			}
+		}
+		// the file cut off at every offset (a reader must cope with any end of input)
+		for at := 0; at < len(in.Data); at++ {
+			jobs <- job{in: in, at: at, cut: true}
 		}
 	}
 	close(jobs)
